@@ -2,10 +2,11 @@
 C19 — NodePool weight and price ordering are honoured.
 
 Property theorems only.  Helper lemmas: `Karp/Proofs/WeightPriceLemmas.lean`, `Karp/Proofs/FirstSuccessLemmas.lean`,
-`Karp/Proofs/PriceSpecLemmas.lean`.
+`Karp/Proofs/PriceSpecLemmas.lean`, `Karp/Proofs/PoolFilterLemmas.lean`.
 Model: `Karp/Model/WeightOrder.lean` (OrderByWeight, sort.Slice as a relation),
        `Karp/Model/FirstSuccess.lean` (parallelizeUntil + the publication protocol of addToNewNodeClaim),
-       `Karp/Model/PriceOrder.lean` (OrderByPrice, Truncate, Cheapest, ToNodeClaim truncation).
+       `Karp/Model/PriceOrder.lean` (OrderByPrice, Truncate, Cheapest, ToNodeClaim truncation),
+       `Karp/Model/PoolFilter.lean` (the NodePool filter of Provisioner.NewScheduler: dynamic, Ready is True, not deleting).
 Spec:  `Karp/Spec/WeightPrice.lean`.
 -/
 import Karp.Proofs.WeightPriceLemmas
@@ -13,11 +14,12 @@ import Karp.Proofs.FirstSuccessLemmas
 import Karp.Proofs.PriceSpecLemmas
 import Karp.Proofs.WeightSpecLemmas
 import Karp.Proofs.ReservedFallbackLemmas
+import Karp.Proofs.PoolFilterLemmas
 import Karp.Spec.WeightPrice
 import Karp.Spec.PoolPass
 
 namespace Karp.C19
-open List Karp.WeightOrder Karp.PriceOrder Karp.FirstSuccess Karp.ReservedFallback Karp.Spec.WeightPrice
+open List Karp.WeightOrder Karp.PriceOrder Karp.FirstSuccess Karp.ReservedFallback Karp.Spec.WeightPrice Karp.PoolFilter
 
 /-! ## Fact expectations over the regenerated source facts -/
 
@@ -28,6 +30,12 @@ theorem fact_maxInstanceTypes_pos : 0 < Karp.Gen.C19Facts.maxInstanceTypes := by
     (the template index order IS the weight order) -/
 theorem fact_order_before_templates :
     Karp.Gen.C19Facts.provisionerNewSchedulerCalls = ["OrderByWeight", "NewScheduler"] := by decide
+
+/-- in front of `OrderByWeight`, `Provisioner.NewScheduler` filters the listed NodePools on `IsStatic`, on the root
+    condition being TRUE (`ConditionSet.IsTrue` — no `IsFalse` / `IsUnknown` test, under which a pool of unknown or
+    unreported readiness would pass) and on the deletionTimestamp: `Model/PoolFilter.eligible` -/
+theorem fact_pool_filter_before_order :
+    Karp.Gen.C19Facts.provisionerPoolFilterCalls = ["ListManaged", "IsStatic", "IsTrue", "IsZero", "OrderByWeight"] := by decide
 
 /-- `ToNodeClaim` slices the price-ordered options (`lo.Slice(OrderByPrice(..), 0, MaxInstanceTypes)`), once -/
 theorem fact_toNodeClaim_slices_ordered :
@@ -289,6 +297,66 @@ theorem C19_weight_priority (pools ord : List Pool) (f : Pool → Outcome) (n : 
       right
       exact ⟨ord[m], hperm.mem_iff.mpr (getElem_mem hmlt), ho, hfail⟩
 
+/-! ## Which pools are candidates: ready, dynamic, not being deleted -/
+
+/-- **C19_eligible_meets_spec** — the filter of `Provisioner.NewScheduler` keeps exactly the pools the specification
+    calls usable: dynamic, not being deleted, and READY in the specification's sense — the pool reports the condition
+    `Ready` and reports it as `True` (all condition lists that store a type at most once, as the API's list-map does). -/
+theorem C19_eligible_meets_spec (m : Meta)
+    (huniq : (m.conds.filter (fun c => c.type == readyType)).length ≤ 1) :
+    eligible m = (Spec.PoolPass.readyCondition (m.conds.map (fun c => (c.type, c.status))) && !m.static && !m.deleting) := by
+  unfold eligible
+  rw [isTrue_ready_eq m.conds huniq]
+  cases m.static <;> cases m.deleting <;> cases Spec.PoolPass.readyCondition _ <;> rfl
+
+/-- **C19_unready_never_eligible** — a pool whose root condition is `False`, is `Unknown`, or is not stored at all
+    never becomes a template, whatever its weight. -/
+theorem C19_unready_never_eligible (m : Meta) (h : eligible m = true) :
+    ∃ c ∈ m.conds, c.type = readyType ∧ c.status = "True" := by
+  unfold eligible at h
+  by_cases hs : m.static = true
+  · simp [hs] at h
+  · by_cases ht : PoolFilter.isTrue m.conds [readyType] = true
+    · simp only [PoolFilter.isTrue, PoolFilter.get, all_cons, all_nil, Bool.and_true] at ht
+      cases hf : m.conds.find? (fun c => c.type == readyType) with
+      | none => rw [hf] at ht; cases ht
+      | some c =>
+        rw [hf] at ht
+        refine ⟨c, mem_of_find?_eq_some hf, ?_, by simpa [condIsTrue] using ht⟩
+        simpa using find?_some hf
+    · simp [hs, ht] at h
+
+/-- **C19_ready_weight_priority** (first sentence of the property with its word READY; all pool sets, all stored
+    conditions, all feasibility assignments, every degree of parallelism, every interleaving) — filter the pools as
+    `Provisioner.NewScheduler` does, order the rest as `OrderByWeight` may, evaluate the templates concurrently.  If the
+    pod opens a node from pool `p`, then `p` is an eligible pool (ready, dynamic, not being deleted), it is feasible, and
+    EVERY eligible pool ranking before it — in particular every ready pool of larger weight — is infeasible.  A pool
+    that is not eligible neither receives the pod nor keeps it away from a lower-weight ready pool. -/
+theorem C19_ready_weight_priority (pools ord : List Pool) (info : Pool → Meta) (f : Pool → Outcome) (n : Int)
+    (sched : List Nat)
+    (hsort : allowedSort before (pools.filter (fun p => eligible (info p))) ord = true)
+    (hdone : allDone (run (ord.map f) (init (effectiveWorkers n) (ord.map f)) sched) = true) :
+    match result (run (ord.map f) (init (effectiveWorkers n) (ord.map f)) sched) with
+    | some i => ∃ p, ord[i]? = some p ∧ p ∈ pools ∧ eligible (info p) = true ∧ f p = .ok ∧
+        ∀ q ∈ pools, eligible (info q) = true → (before q p = true ∨ p.weight < q.weight) → f q = .fail
+    | none => (∀ q ∈ pools, eligible (info q) = true → f q = .fail) ∨
+        ∃ p ∈ pools, eligible (info p) = true ∧ f p = .reserved ∧
+          ∀ q ∈ pools, eligible (info q) = true → (before q p = true ∨ p.weight < q.weight) → f q = .fail := by
+  have h := C19_weight_priority (pools.filter (fun p => eligible (info p))) ord f n sched hsort hdone
+  simp only [allowedSort, Bool.and_eq_true] at hsort
+  have hperm : (pools.filter (fun p => eligible (info p))) ~ ord := isPerm_iff.mp hsort.1
+  generalize result (run (ord.map f) (init (effectiveWorkers n) (ord.map f)) sched) = res at h ⊢
+  cases res with
+  | some i =>
+    obtain ⟨p, hp, hok, hall⟩ := h
+    obtain ⟨hpp, hel⟩ := mem_filter.mp (hperm.mem_iff.mpr (mem_of_getElem? hp))
+    exact ⟨p, hp, hpp, hel, hok, fun q hq he hr => hall q (mem_filter.mpr ⟨hq, he⟩) hr⟩
+  | none =>
+    rcases h with h | ⟨p, hp, hres, hall⟩
+    · exact Or.inl (fun q hq he => h q (mem_filter.mpr ⟨hq, he⟩))
+    · obtain ⟨hpp, hel⟩ := mem_filter.mp hp
+      exact Or.inr ⟨p, hpp, hel, hres, fun q hq he hr => hall q (mem_filter.mpr ⟨hq, he⟩) hr⟩
+
 /-! ## Whole passes with capacity reservations -/
 
 /-- **C19_reserved_pass_priority** (all pool sets, all pod batches; `Model/ReservedFallback.pass` = the pass in which
@@ -484,6 +552,27 @@ example := C19_weight_priority [pA, pD, pC, pB] [pC, pB, pA, pD] fEx 2 [0, 1, 0,
 example : progressMeasure [Outcome.fail, .ok] (step [Outcome.fail, .ok] (init 2 [Outcome.fail, .ok]) 1)
     < progressMeasure [Outcome.fail, .ok] (init 2 [Outcome.fail, .ok]) :=
   C19_schedule_progress _ _ 1 ⟨W.idle, by decide, by decide⟩
+
+/-- the pool filter on concrete condition lists: healthy pool; NodeClass not resolved yet (Ready Unknown); nothing
+    reported yet; Ready False; failing registrations do not make a pool unready; static and deleting pools -/
+def condsReady : List Cond := [⟨"NodeClassReady", "True"⟩, ⟨"NodeRegistrationHealthy", "False"⟩, ⟨"Ready", "True"⟩, ⟨"ValidationSucceeded", "True"⟩]
+def condsUnknown : List Cond := [⟨"NodeClassReady", "Unknown"⟩, ⟨"Ready", "Unknown"⟩, ⟨"ValidationSucceeded", "True"⟩]
+def condsFalse : List Cond := [⟨"NodeClassReady", "False"⟩, ⟨"Ready", "False"⟩, ⟨"ValidationSucceeded", "True"⟩]
+example : eligible ⟨condsReady, false, false⟩ = true ∧ eligible ⟨condsUnknown, false, false⟩ = false ∧
+    eligible ⟨[], false, false⟩ = false ∧ eligible ⟨condsFalse, false, false⟩ = false ∧
+    eligible ⟨condsReady, true, false⟩ = false ∧ eligible ⟨condsReady, false, true⟩ = false := by decide
+example : Spec.PoolPass.readyCondition (condsReady.map (fun c => (c.type, c.status))) = true ∧
+    Spec.PoolPass.readyCondition (condsUnknown.map (fun c => (c.type, c.status))) = false ∧
+    Spec.PoolPass.readyCondition [] = false := by decide
+example := C19_eligible_meets_spec ⟨condsUnknown, false, false⟩ (by decide)
+/-- `C19_ready_weight_priority` on a concrete run: the weight-50 pool "c" reports Ready=Unknown, so only a, b, d become
+    templates; every one of them is feasible and the pod lands in "b" — "c" neither receives it nor blocks it -/
+def infoEx (p : Pool) : Meta := if p.weight = 50 then ⟨condsUnknown, false, false⟩ else ⟨condsReady, false, false⟩
+example : templatePools infoEx [pA, pD, pC, pB] = [pB, pA, pD] := by decide
+example := C19_ready_weight_priority [pA, pD, pC, pB] [pB, pA, pD] infoEx (fun _ => .ok) 2 [0, 1, 0, 1, 0]
+  (by decide) (by decide)
+example : result (run ([pB, pA, pD].map (fun _ => Outcome.ok)) (init (effectiveWorkers 2) ([pB, pA, pD].map (fun _ => Outcome.ok))) [0, 1, 0, 1, 0]) = some 0 := by
+  decide
 
 def o (z c : String) (p : Nat) (a : Bool := true) : Offering := { zone := z, ct := c, price := p, available := a }
 def tA : IType := { name := "a", offerings := [o "z1" "spot" 100, o "z2" "on-demand" 900] }
